@@ -4,7 +4,7 @@ use crate::gen;
 use crate::model::{icd_angle, icd_rate, rel_close};
 use crate::props::c19::cut_block;
 use crate::runner::{from_case, hash_bytes, no_panic, CaseInfo, Check, Ctx, Fail, Report};
-use crate::wire::{BodySpec, CutSpec, MsgHeaderSpec, MsgSpec, VcpHeaderSpec, VcpSpec, FRAME_BODY_LEN};
+use crate::wire::{BodySpec, CutSpec, MsgHeaderSpec, MsgSpec, VcpHeaderSpec, VcpSpec, FRAME_BODY_LEN, MSG_HEADER_LEN};
 use crate::{ensure, ensure_eq};
 use nexrad_decode::messages::volume_coverage_pattern as vcp;
 use nexrad_decode::messages::{decode_messages, MessageContents};
@@ -132,6 +132,25 @@ pub fn check_oversize(c: &OversizeCase) -> Check {
     ensure!(r.is_err(), "vcp:oversize-count-accepted", "declared {} cuts in a 2404-byte frame decoded without error ({} messages)", c.declared, r.as_ref().map(|v| v.len()).unwrap_or(0));
     let r = no_panic("decode_volume_coverage_pattern", || vcp::decode_volume_coverage_pattern(&mut &body[..]))?;
     ensure!(r.is_err(), "vcp:oversize-count-accepted", "declared {} cuts decoded from a 2404-byte body without error", c.declared);
+    // the frame boundary must hold inside a longer stream too: the same frame preceded by one valid frame and
+    // followed by enough valid frames to cover every byte the declared cut list would need
+    if c.declared <= 2000 || c.declared % 31 == 21 {
+        let needed = 22 + 46 * c.declared as usize - FRAME_BODY_LEN;
+        let followers = needed / (MSG_HEADER_LEN + FRAME_BODY_LEN) + 2;
+        let filler = MsgSpec { header: MsgHeaderSpec { mtype: 3, ..hdr.clone() }, body: BodySpec::Opaque(vec![(c.seed >> 8) as u8, c.seed as u8, 7]) }.encode();
+        let mut stream = filler.clone();
+        stream.extend_from_slice(&bytes);
+        for _ in 0..followers {
+            stream.extend_from_slice(&filler);
+        }
+        let r = no_panic("decode_messages", || decode_messages(&mut Cursor::new(&stream[..])))?;
+        ensure!(
+            r.is_err(),
+            "vcp:oversize-count-accepted-inside-stream",
+            "declared {} cuts in a 2404-byte frame followed by {} further frames decoded without error ({} messages): the cut list was read across the frame boundary",
+            c.declared, followers, r.as_ref().map(|v| v.len()).unwrap_or(0)
+        );
+    }
     Ok(())
 }
 
